@@ -40,27 +40,7 @@ def correspondence(ctx, ss, n_cases, weights, tag):
 
 
 def make_probe(ss):
-    class Book(ss.Analyzer):
-        def __init__(self, **kw):
-            super().__init__(**kw); self.rows = []; self.problems = []
-        def step(self):
-            sim = self.sim; ppl = sim.people; ti = sim.t.ti
-            n = int(ppl.uid.len_used)
-            if not np.array_equal(np.asarray(ppl.uid.raw[:n]), np.arange(n)):
-                self.problems.append((ti, 'uid array is not 0..n-1'))
-            for st in ppl._states.values():
-                if st.len_used != n or len(st.raw) < n:
-                    self.problems.append((ti, f'state {st.name} has len_used={st.len_used}, len(raw)={len(st.raw)} but n_uid={n}'))
-            for arr in (ppl.slot, ppl.parent):
-                if arr.len_used != n: self.problems.append((ti, f'{arr.name} has len_used={arr.len_used} but n_uid={n}'))
-            au = np.asarray(ppl.auids)
-            if len(np.unique(au)) != len(au): self.problems.append((ti, 'duplicate active uids'))
-            if len(au) and au.max() >= n: self.problems.append((ti, 'active uid outside the id space'))
-            overdue = au[(ppl.alive.raw[au]) & (ppl.ti_dead.raw[au] < ti)]
-            if len(overdue):
-                self.problems.append((ti, f'death requested at step {int(ppl.ti_dead.raw[overdue[0]])} for agent {int(overdue[0])} has still not been carried out after the death-resolution phase of step {int(ti)}'))
-            self.rows.append(dict(ti=int(ti), n_uid=n, n_active=len(au), alive_active=int(np.count_nonzero(ppl.alive.raw[au])),
-                                  late=int(np.count_nonzero((~ppl.alive.raw[au]) & (ppl.ti_dead.raw[au] < ti)))))
+    from harness.probes import Book
     return Book
 
 
@@ -92,13 +72,25 @@ def run_level(ctx, ss):
         'ncd-deaths-growth': lambda seed: ss.Sim(n_agents=40, diseases=ss.NCD(), demographics=[ss.Births(birth_rate=600), ss.Deaths(death_rate=40)],
                                                  networks=ss.RandomNet(), dur=10, rand_seed=seed, verbose=0),
     }
+    cfgs['deaths-on-coarser-step'] = lambda seed: ss.Sim(n_agents=150, diseases=ss.SIR(p_death=0.2), networks=ss.RandomNet(), dt=0.5, dur=8, rand_seed=seed, verbose=0,
+                                                         demographics=[ss.Births(birth_rate=200), ss.Deaths(death_rate=120, unit='year', dt=1.0)])
+    cfgs['copied-mid-run'] = lambda seed: ss.Sim(n_agents=60, diseases=[ss.SIR(p_death=0.3), ss.SIS()], networks=ss.RandomNet(),
+                                                 demographics=[ss.Births(birth_rate=500), ss.Deaths(death_rate=100)], dur=12, rand_seed=seed, verbose=0)
+    import pickle, copy as _copy
     for name, mk in cfgs.items():
         for rep in range(ctx.n(1, 6)):
             seed = rng.randrange(1, 10**4)
             book = Book(name='book')
             sim = mk(seed)
             sim.pars['analyzers'] = [book]
-            sim.run()
+            try:
+                if name == 'copied-mid-run':      # the run continues in a copy / an unpickled sim: bookkeeping must carry over
+                    sim.run(until=sim.pars.start + 4 if isinstance(sim.pars.start, (int, float)) else None) if False else sim.init()
+                    for _ in range(4): sim.run_one_step()
+                    sim = pickle.loads(pickle.dumps(sim)) if rep % 2 == 0 else _copy.deepcopy(sim)
+                sim.run()
+            except Exception as E:
+                ctx.violation(f'{name}: run raised {type(E).__name__}: {E}', dict(config=name, seed=seed)); continue
             ctx.count(('run', name, seed)); ctx.dist('run:' + name)
             book = sim.analyzers[0]
             for ti, what in book.problems[:3]:
